@@ -326,9 +326,52 @@ pub struct SimGoal<R: Raw> {
     pub radius: f64,
     pub sampler: GoalSampler,
     pub seed: u64,
+    /// (offset, component kind, centre, radius) of the component condition, if any
+    pub comp: Option<(usize, Comp, Vec<f64>, f64)>,
+    /// (offset, component kind) redrawn by the `Turn` sampler
+    pub turn: Option<(usize, Comp)>,
 }
 
 impl<R: Raw> SimGoal<R> {
+    fn comp_ok(&self, s: &R::StateType) -> bool {
+        match &self.comp {
+            None => true,
+            Some((off, kind, c, r)) => {
+                let v = enc_of::<R>(s);
+                crate::spaces::comp_dist(kind, &v[*off..*off + kind.width()], c) <= *r
+            }
+        }
+    }
+    /// Goal samples satisfy the component condition: the drawn state's component is kept when it
+    /// already lies well inside, otherwise replaced by a perturbation of the centre (SO(2), R^n)
+    /// or by the centre itself.
+    fn fit_comp(&self, s: R::StateType, rng: &mut impl Rng) -> R::StateType {
+        let Some((off, kind, c, r)) = &self.comp else { return s };
+        let mut v = enc_of::<R>(&s);
+        let w = kind.width();
+        if crate::spaces::comp_dist(kind, &v[*off..*off + w], c) <= 0.9 * r {
+            return s;
+        }
+        let f: f64 = rng.random::<f64>();
+        match kind {
+            Comp::SO2 => {
+                let x = c[0] + (2.0 * f - 1.0) * 0.9 * r;
+                v[*off] = (x + std::f64::consts::PI).rem_euclid(2.0 * std::f64::consts::PI) - std::f64::consts::PI;
+            }
+            Comp::RV(n) => {
+                // a point at distance f * 0.9 r along the direction from the centre to the draw
+                let d = crate::spaces::comp_dist(kind, &v[*off..*off + w], c);
+                for i in 0..*n {
+                    v[*off + i] = if d > 0.0 && d.is_finite() { c[i] + (v[*off + i] - c[i]) / d * f * 0.9 * r } else { c[i] };
+                }
+            }
+            Comp::SO3 => v[*off..*off + w].copy_from_slice(c),
+        }
+        if crate::spaces::comp_dist(kind, &v[*off..*off + w], c) > 0.95 * r {
+            v[*off..*off + w].copy_from_slice(c);
+        }
+        R::dec(&self.lay, &v)
+    }
     /// A state at distance <= 0.99 * radius from the target (never on the rim).
     fn draw(&self, rng: &mut impl Rng) -> R::StateType {
         let u = match self.inner.sample_uniform(rng) {
@@ -355,7 +398,7 @@ impl<R: Raw> SimGoal<R> {
 
 impl<R: Raw> Goal<R::StateType> for SimGoal<R> {
     fn is_satisfied(&self, s: &R::StateType) -> bool {
-        let ans = self.inner.distance(&self.target, s) <= self.radius;
+        let ans = self.inner.distance(&self.target, s) <= self.radius && self.comp_ok(s);
         seam_event(Ev::Sat(enc_of::<R>(s), ans));
         ans
     }
@@ -386,11 +429,30 @@ impl<R: Raw> GoalSampleableRegion<R::StateType> for SimGoal<R> {
             GoalSampler::Fixed => self.target.clone(),
             GoalSampler::Harness => {
                 let mut x = Xo::new(crate::prng::mix(self.seed, "goal", draw_no));
-                self.draw(&mut x)
+                let s = self.draw(&mut x);
+                self.fit_comp(s, &mut x)
+            }
+            GoalSampler::Turn => {
+                let mut x = Xo::new(crate::prng::mix(self.seed, "goal", draw_no));
+                match (&self.turn, self.inner.sample_uniform(&mut x)) {
+                    (Some((off, kind)), Ok(u)) => {
+                        let mut v = enc_of::<R>(&self.target);
+                        let uv = enc_of::<R>(&u);
+                        let w = kind.width();
+                        v[*off..*off + w].copy_from_slice(&uv[*off..*off + w]);
+                        let s = R::dec(&self.lay, &v);
+                        self.fit_comp(s, &mut x)
+                    }
+                    _ => {
+                        let s = self.draw(&mut x);
+                        self.fit_comp(s, &mut x)
+                    }
+                }
             }
             GoalSampler::Planner => {
                 let mut cr = CountingRng { inner: rng, words: 0, cap };
-                self.draw(&mut cr)
+                let s = self.draw(&mut cr);
+                self.fit_comp(s, &mut cr)
             }
         };
         seam_event(Ev::SG(Some(enc_of::<R>(&s))));
@@ -708,6 +770,7 @@ fn run_typed<R: Raw>(scn: &Scenario, opts: &RunOpts) -> Outcome {
     let mut planner: AnyPlanner<R> = AnyPlanner::new(&scn.planner);
     let mut calls: Vec<CallOut> = Vec::new();
     let mut dead = false;
+    let mut checkers: Vec<Option<Arc<dyn StateValidityChecker<S<R>>>>> = Vec::new();
 
     let make_pd = |pi: usize| -> Arc<Pd<R>> {
         let p = &scn.problems[pi];
@@ -721,6 +784,12 @@ fn run_typed<R: Raw>(scn: &Scenario, opts: &RunOpts) -> Outcome {
                 radius: p.goal.radius,
                 sampler: p.goal.sampler,
                 seed: p.goal.sampler_seed,
+                comp: p.goal.comp.as_ref().map(|cc| (crate::spaces::comp_offset(&lay, cc.comp), lay[cc.comp], cc.c.clone(), cc.r)),
+                turn: {
+                    let ws = crate::spaces::comp_weights(&scn.space);
+                    let k = p.goal.comp.as_ref().map(|cc| cc.comp).or_else(|| (0..lay.len()).find(|i| ws[*i] == 0.0));
+                    k.map(|k| (crate::spaces::comp_offset(&lay, k), lay[k]))
+                },
             }),
         })
     };
@@ -763,10 +832,15 @@ fn run_typed<R: Raw>(scn: &Scenario, opts: &RunOpts) -> Outcome {
             }
             CallSpec::Setup { problem } => {
                 let pd = make_pd(*problem);
-                let vc: Arc<dyn StateValidityChecker<S<R>>> = Arc::new(SimChecker::<R> {
-                    inner: inner.clone(),
-                    world: TypedWorld::new(&lay, &scn.worlds[scn.problems[*problem].world]),
-                });
+                // one checker object per world, handed out again on every setup with that world
+                // (what a user who keeps his checker around does)
+                let wi = scn.problems[*problem].world;
+                if checkers.len() <= wi {
+                    checkers.resize(wi + 1, None);
+                }
+                let vc: Arc<dyn StateValidityChecker<S<R>>> = checkers[wi]
+                    .get_or_insert_with(|| Arc::new(SimChecker::<R> { inner: inner.clone(), world: TypedWorld::new(&lay, &scn.worlds[wi]) }))
+                    .clone();
                 match guarded(|| planner.setup(pd, vc)) {
                     Ok(()) => Res::Unit,
                     Err(r) => r,
